@@ -7,6 +7,7 @@ import CarModel.Driver.Crash
 import CarModel.Driver.Deferred
 import CarModel.Driver.Xform
 import CarModel.Driver.IdxSer
+import CarModel.Driver.Inspect
 namespace Car.Driver
 
 structure DState where
@@ -53,6 +54,7 @@ def step (st : DState) (line : String) : DState × String × String :=
     else if fam == "crash" then let r := famCrash H kv; (st, r.1, r.2)
     else if fam == "xform" then let r := famXform kv; (st, r.1, r.2)
     else if fam == "idxser" then let r := famIdxSer kv; (st, r.1, r.2)
+    else if fam == "inspect" then let r := famInspect H kv; (st, r.1, r.2)
     else if fam == "idx" then let r := famIdx kv; (st, r.1, r.2)
     else (st, "bad-op", "")
 
